@@ -28,7 +28,8 @@ ASSUMPTIONS = [
     "the disk kinematics theta(t) = beam_position + phase - omega t stated in the module docs",
     "frequency tolerance: |delta| in [1e-6, 1e-2] must be rejected, |delta| <= 1e-10 accepted; the "
     "band between is not tested ('about 1e-8')",
-    "touching slits (zero-measure overlap) are not generated",
+    "touching slits (zero-measure overlap) need not be refused; if they are accepted the reported intervals "
+    "must still be maximal openings (facet touching_slits)",
 ]
 
 RATIOS = [(1, 4), (1, 3), (1, 2), (1, 1), (2, 1), (3, 1), (5, 1), (8, 1)]
@@ -397,6 +398,70 @@ def check_overlap(case):
     )
 
 
+@st.composite
+def touching_cases(draw):
+    """Slit sets (whole degrees, exact arithmetic) in which two slits touch: inside the turn (end_i == begin_j)
+    or across top-dead-centre (end_last == begin_first + 360).  Such a set is either refused, or - if it is
+    accepted - every reported interval must still be a *maximal* opening of the disk."""
+    case = draw(chopper_cases())
+    n = draw(st.integers(2, 4))
+    cuts = sorted(draw(st.lists(st.integers(1, 350), min_size=2 * n - 1, max_size=2 * n - 1, unique=True)))
+    kind = draw(st.sampled_from(["inside", "across-tdc"]))
+    slits = []
+    if kind == "inside":
+        # slit k = [c[2k], c[2k+1]] ..., make slit 1 start exactly where slit 0 ends
+        cuts = [*cuts, cuts[-1] + 3]
+        pairs = [[cuts[2 * k], cuts[2 * k + 1]] for k in range(n)]
+        pairs[1][0] = pairs[0][1]
+        if pairs[1][1] <= pairs[1][0]:
+            pairs[1][1] = pairs[1][0] + 1
+        slits = pairs
+    else:
+        cuts = [*cuts, cuts[-1] + 3]
+        pairs = [[cuts[2 * k], cuts[2 * k + 1]] for k in range(n)]
+        pairs[-1][1] = pairs[0][0] + 360          # last slit ends exactly one turn after the first begins
+        slits = pairs
+    # keep the set otherwise valid: strictly increasing edges
+    flat = [x for p in slits for x in p]
+    ok = all(b < e for b, e in slits) and all(slits[k][1] <= slits[k + 1][0] for k in range(len(slits) - 1))
+    case["touch_ok"] = bool(ok and flat == sorted(flat))
+    case["touch_kind"] = kind
+    case["slit_unit"] = "deg"
+    case["int_edges"] = draw(st.booleans())
+    perm = draw(st.permutations(list(range(len(slits)))))
+    case["slits"] = [[math.radians(slits[i][0]), math.radians(slits[i][1])] for i in perm]
+    case["slits_deg"] = [slits[i] for i in perm]
+    return case
+
+
+def check_touching(case):
+    import scipp as sc
+    from scippneutron.chopper import DiskChopper
+
+    labs = ["touch:" + case["touch_kind"], f"nslits:{len(case['slits'])}", "int_edges:%s" % case["int_edges"]]
+    if not case["touch_ok"]:
+        return [*labs, "degenerate-draw"], False
+    kwargs, pulse, ref = build(case)
+    dt = "int64" if case["int_edges"] else "float64"
+    kwargs["slit_begin"] = sc.array(dims=["slit"], values=[b for b, _ in case["slits_deg"]], unit="deg", dtype=dt)
+    kwargs["slit_end"] = sc.array(dims=["slit"], values=[e for _, e in case["slits_deg"]], unit="deg", dtype=dt)
+    ref["slits"] = [(math.radians(b), math.radians(e)) for b, e in case["slits_deg"]]
+    try:
+        ch = DiskChopper(**kwargs)
+        to = ch.time_offset_open(pulse_frequency=pulse)
+        tc = ch.time_offset_close(pulse_frequency=pulse)
+    except ValueError:
+        return [*labs, "refused"], True
+    # accepted: then the reported pairs must be maximal openings of the disk
+    o = to.to(unit="s", dtype="float64").values
+    c = tc.to(unit="s", dtype="float64").values
+    try:
+        verify_openings(o, c, ref, "DiskChopper with touching slits " + str(case["slits_deg"]) + " deg")
+    except Violation as v:
+        raise Violation("touching-accepted-not-maximal", v.message) from None
+    return [*labs, "accepted-and-maximal"], True
+
+
 def m_tdc_overlap(case, v):
     return v.kind == "overlap-accepted" and case.get("kind") == "across-tdc"
 
@@ -413,6 +478,9 @@ FACETS = [
     Facet("reject_frequency", check_bad_frequency, strategy=lambda tier: bad_frequency_cases(),
           quick=(2, 300), thorough=(8, 3000), min_nontrivial=0.5,
           doc="out-of-phase frequencies rejected, in-tolerance ones accepted"),
+    Facet("touching_slits", check_touching, strategy=lambda tier: touching_cases(),
+          quick=(1, 300), thorough=(8, 2000), min_nontrivial=0.3,
+          doc="slits touching inside the turn or exactly across TDC: refused, or reported as maximal openings"),
     Facet("reject_overlap", check_overlap, strategy=lambda tier: overlap_cases(),
           quick=(2, 300), thorough=(8, 3000), min_nontrivial=0.5,
           doc="overlapping slit sets (same turn, contained, only modulo 2 pi) rejected"),
